@@ -40,12 +40,12 @@ func Profile() *world.Profile {
 	}
 	p.Shapes = make([]int, 24)
 	for i, w := range map[int]int{world.ShCtx: 8, world.ShHTTP: 1, world.ShCtxTok: 2, world.ShCtxReqTok: 1, world.ShCtxStr: 3, world.ShCtxBytes: 1,
-		world.ShCtxErr: 2, world.ShCtxIntStr: 2, world.ShCtxIntErr: 1, world.ShCtxStrErr: 1, world.ShTeapot: 1, world.ShLogger: 1, world.ShRWReqTok: 1, world.ShInjector: 1, world.ShUserFast: 1, world.ShCtxPtrStr: 1} {
+		world.ShCtxErr: 2, world.ShCtxIntStr: 2, world.ShCtxIntErr: 1, world.ShCtxStrErr: 1, world.ShTeapot: 1, world.ShLogger: 1, world.ShRWReqTok: 1, world.ShInjector: 1, world.ShUserFast: 1, world.ShCtxPtrStr: 1, world.ShCtxNamedStr: 1, world.ShCtxNamedBytes: 1} {
 		p.Shapes[i] = w
 	}
 	p.Ops = make([]int, world.NumOps)
 	for i, w := range map[int]int{world.OpYield: 2, world.OpWriteHeader: 2, world.OpWrite: 2, world.OpFlush: 1, world.OpNext: 5, world.OpNextSwallow: 1,
-		world.OpCancel: 2, world.OpSetHeader: 1, world.OpStatus: 1, world.OpBefore: 1, world.OpReplaceCtx: 1, world.OpExpireCtx: 1, world.OpMapOwnWriter: 1, world.OpRedirect: 1, world.OpHTTPError: 1, world.OpCopy: 2, world.OpMapRH: 1, world.OpCookie: 1, world.OpNestedServe: 1} {
+		world.OpCancel: 2, world.OpSetHeader: 1, world.OpStatus: 1, world.OpBefore: 1, world.OpReplaceCtx: 1, world.OpExpireCtx: 1, world.OpMapOwnWriter: 1, world.OpRedirect: 1, world.OpHTTPError: 1, world.OpCopy: 2, world.OpMapRH: 1, world.OpCookie: 1, world.OpNestedServe: 1, world.OpHijack: 1} {
 		p.Ops[i] = w
 	}
 	return p
